@@ -154,9 +154,20 @@ def make_end(role, key, use_relay_handshake=None):
             self._role = role
             self._eventual_queue = EventualQueue(Clock())
             self.candidates = []
+            self._pending_connections = set()     # Connector.build_protocol registers what it builds
 
         def add_candidate(self, c):
             self.candidates.append(c)
+
+        def __getattr__(self, name):
+            # whatever else Connector.build_protocol may want from its Connector (bookkeeping that
+            # is irrelevant to the L2 byte stream) is absorbed, so a refactoring there does not break this check
+            if name.startswith("__"):
+                raise AttributeError(name)
+            from unittest import mock
+            m = mock.MagicMock(name=name)
+            object.__setattr__(self, name, m)
+            return m
     cs = ConnStub()
     p = Connector.build_protocol(cs, None, "desc")
     if use_relay_handshake is not None:
